@@ -5,8 +5,33 @@
 #include "iwuuid.h"
 #include "iwcsv.h"
 #include "iwconv.h"
+#include "iwjson.h"
+#include "iwutils.h"
+#include "iwxstr.h"
 #include <errno.h>
+#include <unistd.h>
+#include <signal.h>
+#include <sys/wait.h>
 #define ZB(name, v) printf("Definition %s : bool := %s.\n", name, (v) ? "true" : "false")
+static const char* empty_mapper(const char *key, void *op) {
+  (void) key; (void) op;
+  return "";
+}
+// iwu_replace with an empty key, in a child with a 0.2 s alarm: does the call come back
+static int replace_empty_key_returns(void) {
+  fflush(stdout);
+  pid_t pid = fork();
+  if (pid == 0) {
+    ualarm(200000, 0);                                 // 0.2 s: the call itself takes microseconds
+    const char *keys[] = { "" };
+    struct iwxstr *res = 0;
+    iwrc rc = iwu_replace(&res, "abc", 3, keys, 1, empty_mapper, 0);
+    _exit(rc ? 2 : 0);
+  }
+  int st = 0;
+  if (pid < 0 || waitpid(pid, &st, 0) < 0) return 0;
+  return WIFEXITED(st) && WEXITSTATUS(st) == 0;
+}
 int main(void) {
   ZV("ini_max_line", IWINI_MAX_LINE);                   // char line[IWINI_MAX_LINE] on the stack
   ZV("ini_max_section", MAX_SECTION);                   // char section[MAX_SECTION]
@@ -32,5 +57,12 @@ int main(void) {
   long long v = iw_strtoll("123", 10, &rc);
   ZB("fact_strto_clears_errno", rc == 0 && v == 123);
   errno = 0;
+  // a text without any value (a lone closing bracket): is it refused, or reported as success without a node
+  struct iwpool *pool = iwpool_create(0);
+  struct jbl_node *n = 0;
+  rc = jbn_from_json("]", &n, pool);
+  ZB("fact_json_rejects_rootless", rc != 0);
+  iwpool_destroy(pool);
+  ZB("fact_replace_skips_empty_key", replace_empty_key_returns());
   return 0;
 }
